@@ -49,12 +49,19 @@ m = {
 json.dump(m, open(os.path.join(ROOT, "MANIFEST.json"), "w"), indent=1)
 
 # known_findings.json = merge of findings/Cxx.json (one list of entries per property)
+fc_path = os.path.join(ROOT, "tools", "fix_commits.json")
+fix_commits = json.load(open(fc_path)) if os.path.exists(fc_path) else {}
 fd = os.path.join(ROOT, "findings")
 allf = []
 if os.path.isdir(fd):
     for f in sorted(os.listdir(fd)):
         if f.endswith(".json"):
             for e in json.load(open(os.path.join(fd, f))):
+                # fixed findings name the fix: commit in /repo (tools/fix_commits.json)
+                fx = os.path.basename(e.get("fix", "") or "")
+                if e.get("status") == "fixed" and fx and fix_commits.get(fx):
+                    e["commit"] = fix_commits[fx].split()[0]
+                    e["fixed"] = "fixed: property=%s %s %s" % (e.get("property"), e["commit"], e.get("what", "")[:200])
                 allf.append(e)
 json.dump({
     "comment": "Genuine defects of seehuhn/go-sfnt found by the checks. status=open: recorded, not repaired (the check prints KNOWN-FINDING and exits 0 for exactly this signature); status=fixed: repaired by the named fix: commit in /repo (suppresses nothing: the violation is reported again if it returns). Assembled from findings/*.json by tools/mkmanifest.py; never written at run time.",
